@@ -60,6 +60,12 @@ fn parse_comment<'n>(node: Node<'n, 'n>) -> Option<String> {
 
 pub fn xml_name_to_rust_name(xml_name: &str) -> String {
     let rust_name = to_pascal_case(xml_name);
-    // the only keyword a PascalCase name can collide with
-    if rust_name == "Self" { "Self_".to_string() } else { rust_name }
+    match rust_name.chars().next() {
+        // a name without letters, or one that starts with a digit, is not an identifier yet
+        None => "Unnamed_".to_string(),
+        Some(c) if c.is_ascii_digit() => format!("_{rust_name}"),
+        // the only keyword a PascalCase name can collide with
+        Some(_) if rust_name == "Self" => "Self_".to_string(),
+        Some(_) => rust_name,
+    }
 }
